@@ -27,7 +27,10 @@ PlainNumbers == {n \in Numbers : n.exp = "" /\ n.mant \in {"int", "dec"}}
 NumCases == {x \in {[fam |-> "number", num |-> n, unit |-> u, attr |-> a] :
                 n \in (IF Tier = "quick" THEN {x \in Numbers : x.exp \in {"", "e", "e-"}} ELSE Numbers),
                 u \in (IF Tier = "quick" THEN {"", "px", "mm", "%", "em"} ELSE Units),
-                a \in {"rect-x", "rect-width", "circle-r", "line-x2", "stroke-width", "text-x", "stop-offset", "font-size"}} :
+                \* ("line-end-only": a line that gives only x2 / y2 - the start is at 0; "root-width": the only
+                \* dimension the author gives on the root; "use-x": the offset of an instance)
+                a \in {"rect-x", "rect-width", "circle-r", "line-x2", "stroke-width", "text-x", "stop-offset", "font-size",
+                       "line-end-only", "root-width", "use-x"}} :
              x.num.mant = "huge" => x.attr \in {"rect-width", "stroke-width", "font-size", "stop-offset"} /\ x.num.exp = ""}
 
 \* points ::= coordinate-pair (comma-wsp coordinate-pair)*
@@ -39,12 +42,18 @@ PointCases == {[fam |-> "points", n |-> n, pairsep |-> ps, pointsep |-> pt, shap
 Funcs == {"translate1", "translate2", "scale1", "scale2", "rotate1", "rotate3", "skewX", "skewY", "matrix"}
 FuncLists == {<<f>> : f \in Funcs} \cup {<<f, g>> : f \in Funcs, g \in {"translate2", "scale1", "rotate1"}}
              \cup (IF Tier = "quick" THEN {} ELSE {<<f, g, h>> : f \in {"translate1", "matrix"}, g \in Funcs, h \in {"scale2", "skewX"}})
-TransformCases == {[fam |-> "transform", funcs |-> fl, fsep |-> fs, asep |-> as, el |-> e] :
-                      fl \in FuncLists, fs \in {" ", ",", "", " , "}, as \in {" ", ",", " , "}, e \in {"g", "rect", "path", "text"}}
+\* (asep "sign": nothing between two arguments but the sign of the second; wsp: blanks between
+\* the name and the parenthesis, and inside the parentheses)
+TransformCases == {[fam |-> "transform", funcs |-> fl, fsep |-> fs, asep |-> as, wsp |-> w, el |-> e] :
+                      fl \in FuncLists, fs \in {" ", ",", "", " , "}, as \in {" ", ",", " , ", "sign"}, w \in {"", "before", "inside"},
+                      e \in {"g", "rect", "path", "text"}}
 
 \* references
 RefCases == {[fam |-> "ref", form |-> f, target |-> t] :
-                f \in {"use-href", "use-xlink", "fill-url", "stroke-url", "clip-path", "marker-end", "filter", "mask", "textpath-href", "a-href", "image-href"},
+                f \in {"use-href", "use-xlink", "fill-url", "stroke-url", "clip-path", "marker-end", "filter", "mask", "textpath-href", "a-href", "image-href",
+                       \* references that leave the document, and the other ways to write a clip-path
+                       "use-external", "use-external-xlink", "clip-path-none", "clip-path-quoted", "clip-path-dquoted", "clip-path-spaced",
+                       "clip-path-shape", "clip-path-external", "fill-url-quoted"},
                 t \in {"before", "after"}}
 
 \* <use>: x / y translate the referenced element, whatever it is and wherever it is drawn
@@ -55,7 +64,7 @@ UseCases == {[fam |-> "use", form |-> f, where |-> w, tkind |-> k, attrs |-> a] 
 
 \* element vocabulary: one document per structural snippet (indices into the harness's table)
 \* ("svg-attrs": the author's own attributes on the root - id, class, style, data - are content too)
-VocabCases == {[fam |-> "vocab", snippet |-> i, wrap |-> w] : i \in 1..28, w \in {"svg", "svg-g", "fragment", "svg-attrs"}}
+VocabCases == {[fam |-> "vocab", snippet |-> i, wrap |-> w] : i \in 1..31, w \in {"svg", "svg-g", "fragment", "svg-attrs"}}
 
 Cases == CASE Family = "number" -> NumCases [] Family = "points" -> PointCases [] Family = "transform" -> TransformCases
            [] Family = "ref" -> RefCases [] Family = "use" -> UseCases [] Family = "vocab" -> VocabCases [] OTHER -> {}
